@@ -50,6 +50,11 @@ def run_cvc5(path, timeout_s, names):
             secs = time.time() - t0
         elif name == "get-value" and r.startswith("(("):
             k, v = r[2:-2].split(" ", 1)
+            v = v.strip()
+            if v.startswith("#b") or v.startswith("#x"):      # bit-vector literal -> signed integer
+                bits = len(v) - 2 if v.startswith("#b") else 4 * (len(v) - 2)
+                n = int(v[2:], 2 if v.startswith("#b") else 16)
+                v = n - (1 << bits) if n >= (1 << (bits - 1)) else n
             vals[k] = v
     return {"result": res or "unknown", "seconds": secs, "model": vals}
 
